@@ -45,6 +45,7 @@ type planner struct {
 	keys    int // 0 no key pairs, 1 all records carry (from,cno), 2 mixed
 	sa      int // 0 never server allocated, 1 always, 2 mixed
 	fenced  bool
+	ready   bool // the planner believes the leader's owner is writable
 	leo     uint64
 }
 
@@ -120,6 +121,7 @@ func (p *planner) noteInstall(node uint64, a auth) {
 		p.max = a
 	}
 	p.fenced = false
+	p.ready = true
 }
 
 func (p *planner) bump(a auth) auth {
@@ -211,9 +213,18 @@ func genC04(r *rand.Rand, tier string, in *input) {
 	p.noteInstall(leader, first)
 	n := opBudget(r, tier, 5, 22)
 	for k := 0; k < n; k++ {
+		if !p.ready && r.IntN(10) < 7 { // bring the owner back: reinstall (same authority after a restart, next one after a fence)
+			a := p.cur
+			if p.fenced {
+				a = p.bump(p.max)
+			}
+			p.add(p.installOp(p.leader, a))
+			p.noteInstall(p.leader, a)
+			continue
+		}
 		x := r.IntN(100)
 		switch {
-		case x < 30: // commit under the believed current authority
+		case x < 36: // commit under the believed current authority
 			var c cmdInfo
 			if len(p.cmds) > 0 && r.IntN(10) < 3 {
 				c = p.cmds[r.IntN(len(p.cmds))]
@@ -226,7 +237,7 @@ func genC04(r *rand.Rand, tier string, in *input) {
 				op.Lose = append(op.Lose, p.leader)
 			}
 			p.add(op)
-		case x < 40: // commit under an older / newer / foreign authority
+		case x < 45: // commit under an older / newer / foreign authority
 			a := p.cur
 			switch r.IntN(3) {
 			case 0:
@@ -241,14 +252,14 @@ func genC04(r *rand.Rand, tier string, in *input) {
 				a = p.lower(p.cur)
 			}
 			p.add(p.commitOp(p.leader, a, p.newCmd()))
-		case x < 46: // commit on another node (own owner: not ready or an older authority)
+		case x < 50: // commit on another node (own owner: not ready or an older authority)
 			node := p.otherNode(p.leader)
 			a := p.cur
 			if old, ok := p.perNode[node]; ok && r.IntN(2) == 0 {
 				a = old
 			}
 			p.add(p.commitOp(node, a, p.newCmd()))
-		case x < 62: // install a higher authority (same node or failover), possibly fenced
+		case x < 64: // install a higher authority (same node or failover), possibly fenced
 			a := p.bump(p.max)
 			node := p.leader
 			if r.IntN(3) == 0 {
@@ -261,7 +272,8 @@ func genC04(r *rand.Rand, tier string, in *input) {
 			p.add(op)
 			p.noteInstall(node, a)
 			p.fenced = op.WF
-		case x < 72: // install the same authority again (idempotent / changed shape)
+			p.ready = !op.WF
+		case x < 73: // install the same authority again (idempotent / changed shape)
 			op := p.installOp(p.leader, p.cur)
 			switch r.IntN(5) {
 			case 0:
@@ -276,7 +288,7 @@ func genC04(r *rand.Rand, tier string, in *input) {
 				op.WF = p.fenced
 			}
 			p.add(op)
-		case x < 84: // install an older authority
+		case x < 82: // install an older authority
 			node := p.leader
 			if r.IntN(3) == 0 {
 				node = p.node()
@@ -286,13 +298,16 @@ func genC04(r *rand.Rand, tier string, in *input) {
 				a = p.prev[r.IntN(len(p.prev))]
 			}
 			p.add(p.installOp(node, a))
-		case x < 89:
+		case x < 87:
 			node := p.leader
 			if r.IntN(3) == 0 {
 				node = p.node()
 			}
 			p.add(opIn{K: "restart", Node: node})
-		case x < 93: // commit while a follower is unreachable
+			if node == p.leader {
+				p.ready = false
+			}
+		case x < 94: // commit while a follower is unreachable
 			op := p.commitOp(p.leader, p.cur, p.newCmd())
 			op.Drop = p.faultNodes(1+r.IntN(2), p.leader)
 			p.add(op)
